@@ -77,37 +77,37 @@ Definition exit_reason (s : st) : reason :=
 
 (* ---- the tail of EngineTaskController: what happens after the (possible) execution.
    pd = producers_done_when_i_started, ok0 = did_i_execute and returncode == 0 *)
+Definition post_cancel (s : st) (pd ok0 : bool) : bool :=
+  if pd || suicide s then
+    (if ok0 then true else if suicide s then true else if retries s =? 0 then true else cancel s)
+  else cancel s.
+Definition post_kc (s : st) (pd ok0 : bool) : bool :=
+  if (pd || suicide s) && negb ok0 && suicide s then true else kc s.
+Definition post_retries (s : st) (pd ok0 : bool) : Z :=
+  if (pd || suicide s) && negb ok0 && negb (suicide s) && negb (retries s =? 0) then retries s - 1 else retries s.
+
 Definition post (s : st) (pd ok0 : bool) : st :=
-  let '(cancel', kc', retries') :=
-    if pd || suicide s then
-      if ok0 then (true, kc s, retries s)
-      else if suicide s then (true, true, retries s)
-      else if retries s =? 0 then (true, kc s, retries s)
-      else (cancel s, kc s, retries s - 1)
-    else (cancel s, kc s, retries s) in
-  {| now := now s; lo := lo s; consume := consume s; pf := pf s; suicide := suicide s; cancel := cancel';
-     kc := kc'; retries := retries'; ll := ll s; has_proc := has_proc s; proc_re := proc_re s;
+  {| now := now s; lo := lo s; consume := consume s; pf := pf s; suicide := suicide s;
+     cancel := post_cancel s pd ok0; kc := post_kc s pd ok0; retries := post_retries s pd ok0;
+     ll := ll s; has_proc := has_proc s; proc_re := proc_re s;
      last_fin := last_fin s; beginning := Some (now s); mon_done := mon_done s; armed := armed s;
      nact := nact s; execs := execs s |}.
 
 Definition will_exec (c : cfg) (s : st) : bool :=
   (consume s || can_consume c s) && (isnew c s || negb (c_has_prod c)).
 
-(* state after the launch part of EngineTaskController(False) when it executes *)
+(* state after the launch part of EngineTaskController(False) when it executes; a launch that raises leaves
+   the process, the finish date and the clock as they were *)
 Definition launched (c : cfg) (s : st) (o : outcome) : st :=
-  let ll' := Z.max (ll s) (now s) in
-  if o_fail o then
-    {| now := now s; lo := lo s; consume := true; pf := pf s; suicide := suicide s; cancel := cancel s;
-       kc := kc s; retries := retries s; ll := ll'; has_proc := has_proc s; proc_re := proc_re s;
-       last_fin := last_fin s; beginning := beginning s; mon_done := mon_done s; armed := armed s;
-       nact := nact s + 1; execs := {| x_launch := now s; x_pf := pf s; x_rc := None |} :: execs s |}
-  else
-    let fire := o_sui o && armed s in
-    {| now := now s + o_dur o; lo := lo s; consume := true; pf := pf s; suicide := suicide s || fire;
-       cancel := cancel s; kc := kc s; retries := retries s; ll := ll'; has_proc := true; proc_re := o_re o;
-       last_fin := Some (now s + o_dur o); beginning := beginning s; mon_done := mon_done s;
-       armed := armed s && negb (o_sui o);
-       nact := nact s + 1; execs := {| x_launch := now s; x_pf := pf s; x_rc := Some (o_rc o) |} :: execs s |}.
+  {| now := if o_fail o then now s else now s + o_dur o; lo := lo s; consume := true; pf := pf s;
+     suicide := suicide s || (negb (o_fail o) && o_sui o && armed s);
+     cancel := cancel s; kc := kc s; retries := retries s; ll := Z.max (ll s) (now s);
+     has_proc := negb (o_fail o) || has_proc s; proc_re := if o_fail o then proc_re s else o_re o;
+     last_fin := if o_fail o then last_fin s else Some (now s + o_dur o);
+     beginning := beginning s; mon_done := mon_done s;
+     armed := if o_fail o then armed s else armed s && negb (o_sui o);
+     nact := nact s + 1;
+     execs := {| x_launch := now s; x_pf := pf s; x_rc := if o_fail o then None else Some (o_rc o) |} :: execs s |}.
 
 Definition not_launched (c : cfg) (s : st) : st :=
   {| now := now s; lo := lo s; consume := consume s || can_consume c s; pf := pf s; suicide := suicide s;
